@@ -470,6 +470,35 @@ def mesonExeParse (args : List Str) : ExeParse :=
       if cmd ≠ [] || (nonEmpty? st.capture).isSome || (nonEmpty? st.feed).isSome then .usageError
       else .unpickle f
 
+/-! ## The name of the pickled wrapper file (`as_meson_exe_cmdline`)
+
+`meson_exe_<basename>_<digest>.dat`, digest = SHA-1 over `env.hash`, `str(es.cmd_args)`,
+`str(es.workdir)`, `str(capture)`, `str(feed)`.  What matters for "different commands get different
+files" is the text fed to the hash; `reprList` is `str(list_of_str)` reduced to its structure
+(quote, escape of backslash and quote, `, ` between items, brackets). -/
+
+def escReprChar (c : Char) : Str :=
+  if c = '\\' then ['\\', '\\'] else if c = '\'' then ['\\', '\''] else [c]
+
+def reprStr (s : Str) : Str := '\'' :: (s.flatMap escReprChar ++ ['\''])
+
+def reprItems : List Str → Str
+  | [] => []
+  | [a] => reprStr a
+  | a :: b :: r => reprStr a ++ ',' :: ' ' :: reprItems (b :: r)
+
+def reprList (l : List Str) : Str := '[' :: (reprItems l ++ [']'])
+
+/-- feeding the arguments to the hash one after the other -/
+def concatEnc (l : List Str) : Str := l.flatten
+
+def datPre : Str := ['m', 'e', 's', 'o', 'n', '_', 'e', 'x', 'e', '_']
+def datSuf : Str := ['.', 'd', 'a', 't']
+
+/-- file name for a given digest function and argument encoding -/
+def datName (H : Str → Str) (enc : List Str → Str) (prog : Str) (args : List Str) : Str :=
+  (datPre ++ prog ++ ['_']) ++ (H (enc args) ++ datSuf)
+
 /-! ## `meson test`: the command of one test run (`mtest.py`)
 
 `SingleTestRunner._get_cmd` = `TestHarness.get_wrapper(options) + test_cmd` (native build, program
